@@ -5,7 +5,8 @@ pub mod c06;
 pub mod c07;
 pub mod c08;
 pub mod c09;
+pub mod c10;
 
 pub fn all() -> Vec<&'static dyn Check> {
-    vec![&c04::C04, &c06::C06, &c07::C07, &c08::C08, &c09::C09]
+    vec![&c04::C04, &c06::C06, &c07::C07, &c08::C08, &c09::C09, &c10::C10]
 }
